@@ -407,7 +407,15 @@ class Interp:
 
     def _default_hole(self, st: St, fr: DynFrame, node):
         results = [(NORMAL, st)]
-        for cls in SIGNALS + (USER_EXC,):
+        classes = list(SIGNALS + (USER_EXC,))
+        # the body of a `with` block may raise anything: every class an enclosing handler
+        # of the generator names specifically is a way out of its own
+        for level in self._try_stack:
+            for caught in level:
+                if caught not in classes and caught not in (
+                        'ext:BaseException', 'ext:Exception', 'ext:object'):
+                    classes.append(caught)
+        for cls in classes:
             s = st.fork()
             results.append((('raise', Exc(cls, tag='hole')), s))
         return results
